@@ -484,6 +484,15 @@ func globGen(w *bufio.Writer, args map[string]string) {
 			fmt.Fprintf(w, "T f:main.x,f:sub/a.x,f:sub/deep/b.x,f:.h.x,d:sub/empty,f:zz.y P %s Q %s\n", p, q)
 		}
 	}
+	// `$` in names and patterns (javac's Outer$Inner.class, cost$USD.txt): a character like any other — nobody's variable
+	for _, p := range []string{"*$*.class", "**/*$*.class", "cost$USD*.txt", "a$b/*", "*$*", "$*", "*$", "**/$HOME/*", "${x}*", "*.class", "cost*.txt"} {
+		for _, tr := range []string{
+			"f:Outer.class,f:Outer$Inner.class,f:cost$USD1.txt,f:costX.txt,f:cost1.txt,f:a$b/c.x,f:ab/c.x,f:$HOME/h.x,f:sub/In$1.class,f:sub/In.class,f:${x}y,f:y,f:tail$",
+			"f:Outer.class,f:costX.txt,f:ab/c.x,f:y",
+		} {
+			fmt.Fprintf(w, "T %s P %s\n", tr, p)
+		}
+	}
 	for _, l := range []string{"sub", "sub/deep", "main.x", "sub/a.x", "sub/empty", "sub,main.x", ".hid"} {
 		for _, p := range patterns {
 			fmt.Fprintf(w, "T f:main.x,f:sub/a.x,f:sub/deep/b.x,f:.h.x,d:sub/empty,f:.hid/c.x P %s L %s\n", p, l)
